@@ -213,6 +213,7 @@ func c13(c *Ctx) {
 	pooledObjectsReset(c, "hello-message-fresh", "services/ja3/crypto/tls")
 	c13HelloFresh(c)
 	c13HandshakeMessageWhole(c)
+	c13RefusalsBeforeCallback(c)
 	for _, svc := range Services(c) {
 		if svc.Type.Obj().Name() == "httpsService" || os.Getenv("HT_SWEEP") != "" {
 			channelWired(c, "https-events-delivered", svc)
